@@ -14,6 +14,8 @@ for d in sorted(glob.glob("/verif/seeded/*")):
     cut = lambda s, n: s if len(s) <= n else s[:n - 1].rsplit(" ", 1)[0] + " …"
     caught = ", ".join(c.get("caught_by", [])) or "MISSED"
     ran = ", ".join("%s→%s" % (k, "VIOLATION" if v["exit"] == 1 else "exit %d" % v["exit"]) for k, v in sorted(c.get("checks", {}).items()))
+    for r in m.get("retrials", []):
+        ran += "; after strengthening (%s): %s" % (cut(r["after"], 120), ", ".join("%s→%s" % (k, "VIOLATION" if v["exit"] == 1 else "exit %d" % v["exit"]) for k, v in sorted(r["checks"].items())))
     rows.append("| %s | %s | %s | %s | %s |" % (sid, m.get("property"), cut(summ, 260), cut(need, 200), ran))
 print("| seeded/ | property | change (compiles, 85 tests pass) | needs to manifest | checks run → result |")
 print("|---|---|---|---|---|")
